@@ -10,17 +10,18 @@ performs one `Write` per field, the decoder is fed these writes and `Close`d at 
 (`Sys.block`). The decoder is `NewDecoder(4096)` + `SetAllowedMaxDynamicTableSize(A)`.
 
 Main results
-* `RoundtripStatement` — the property at full strength (every history, `A` ≥ every limit used).
-* `roundtrip_history_full_false` — it is FALSE for the code as it is: after a *lower-then-raise*
-  (`SetMaxDynamicTableSize 34; SetMaxDynamicTableSize 4096`) the encoder emits two table size updates
-  (RFC 7541 §4.2) and the decoder rejects the second one (`firstField` was cleared by the first)
-  whenever its table is still non-empty. Finding `c01-double-size-update-rejected`.
-* `roundtrip_history_holds_partial` — outside that region (`avoidsDefect`, a computable predicate
-  on the joint run) every history round-trips exactly: fields, order, `Sensitive` flags, no error.
-  The simulation invariant is `Sim`: the encoder's table is the *newest part* (`<+:` on the
-  newest-first lists) of the decoder's table — equality is not invariant — plus the size bookkeeping.
-* `defect_region_fails` — inside the region the decoder does fail (the exclusion is exact).
-* `roundtrip_no_size_change`, `roundtrip_single_block` — corollaries without the region hypothesis.
+* `roundtrip_history : RoundtripStatement` — the property at full strength: for every history of
+  blocks with arbitrary size calls between blocks, the decoder (allowed maximum `A` ≥ every limit
+  used) emits exactly the written fields, in order, with names, values and `Sensitive` flags, and
+  reports no error. The simulation invariant is `Sim`: the encoder's table is the *newest part*
+  (`<+:` on the newest-first lists) of the decoder's table — equality is not invariant, because
+  `SetMaxDynamicTableSizeLimit` followed by a raise shrinks only the encoder — plus the
+  `minSize`/`maxSize` bookkeeping of the pending update(s).
+* History: the unrepaired `Decoder.Write` cleared `firstField` after ANY representation, so the second
+  of the two table size updates the encoder emits after a lower-then-raise (RFC 7541 §4.2) was
+  rejected whenever the decoder's table was non-empty (finding `c01-double-size-update-rejected`,
+  repaired in /repo; `witnessHistory` is the old counterexample, now an `example` of the statement).
+* `block_any_chunking` (in `Proofs/C01Chunks.lean`): any fragmentation of a block's bytes.
 * T-tie obligations on the regenerated index literal of the static table: `static_index_is_lastIdx`.
 -/
 namespace NetVerif.Proofs.C01
@@ -206,18 +207,20 @@ theorem writeRepr_sim (A : Nat) (e : Encoder) (d : DecCore) (f : Field) (rest : 
 
 /-! ### The pending table size update -/
 
-/-- **The region of the defect**: two updates are pending (`minSize < maxSize`) and the decoder's
-table is still non-empty after the first one (`d.dynTab.size > 0` in `parseDynamicTableSizeUpdate`). -/
-def hitsDefect (e : Encoder) (d : DecCore) : Bool :=
-  e.tableSizeUpdate && decide (e.minSize < e.dyn.maxSize) && decide ((d.dyn.setMaxSize e.minSize).size > 0)
+theorem Sim.afterRepr {A : Nat} {e : Encoder} {d : DecCore} (h : Sim A e d) (buf : Bytes) :
+    Sim A e (afterRepr buf d) := by
+  unfold Hpack.afterRepr
+  split
+  · exact h
+  · exact h.setFF false
 
 /-- The decoder applies a bound `v` the encoder's table already respects. -/
 theorem sim_dec_setMax {A : Nat} {e : Encoder} {d : DecCore} (hs : Sim A e d) (v : Nat) (hv : v ≤ A)
-    (hfit : e.dyn.size ≤ v) (b : Bool) (e2 : Encoder) (hdyn : e2.dyn = e.dyn)
+    (hfit : e.dyn.size ≤ v) (e2 : Encoder) (hdyn : e2.dyn = e.dyn)
     (hlim : e2.maxSizeLimit = e.maxSizeLimit)
     (hsync : e2.tableSizeUpdate = false → e2.dyn.maxSize ≤ v) (hmin : e2.dyn.size ≤ e2.minSize)
     (hreset : e2.tableSizeUpdate = false → e2.minSize = uint32Max) :
-    Sim A e2 { d with dyn := d.dyn.setMaxSize v, firstField := b } := by
+    Sim A e2 { d with dyn := d.dyn.setMaxSize v } := by
   have hd := setMaxSize_sizeOK d.dyn v hs.dsz
   exact {
     pre := by rw [hdyn]; exact setMaxSize_prefix e.dyn d.dyn v hs.esz hs.dsz hs.pre hfit
@@ -246,11 +249,10 @@ theorem appendTableSize_length (v : Nat) (rest : Bytes) : rest.length < (appendT
   simp only [List.length_append]
   omega
 
-/-- The `tableSizeUpdate` prologue of `WriteField` is consumed by the decoder's loop, outside the
-defect region, and re-establishes `maxSize` agreement. -/
+/-- The `tableSizeUpdate` prologue of `WriteField` (one or two table size updates) is consumed by
+the decoder's loop at the beginning of a block and re-establishes `maxSize` agreement. -/
 theorem flush_sim (A : Nat) (e : Encoder) (d : DecCore) (par : Bool) (acc : List Field) (rest : Bytes)
-    (hs : Sim A e d) (hA : A ≤ uint32Max) (hff : e.tableSizeUpdate = true → d.firstField = true)
-    (hreg : hitsDefect e d = false) :
+    (hs : Sim A e d) (hA : A ≤ uint32Max) (hff : e.tableSizeUpdate = true → d.firstField = true) :
     ∃ d', loopG par d (e.flushUpdate.2 ++ rest) acc = loopG par d' rest acc ∧
       Sim A e.flushUpdate.1 d' ∧ e.flushUpdate.1.tableSizeUpdate = false := by
   have hA' : A < 2 ^ 32 := by unfold uint32Max at hA; omega
@@ -264,34 +266,29 @@ theorem flush_sim (A : Nat) (e : Encoder) (d : DecCore) (par : Bool) (acc : List
     simp only [↓reduceIte]
     have hsz1 : e.dyn.size ≤ uint32Max := by have := hs.efit; omega
     by_cases hlt : e.minSize < e.dyn.maxSize
-    · -- two updates
+    · -- two updates: the smallest size since the last update, then the final size
       simp only [hlt, ↓reduceIte, List.append_assoc]
-      have hz : (d.dyn.setMaxSize e.minSize).size = 0 := by
-        unfold hitsDefect at hreg
-        simp only [hu, hlt, decide_true, Bool.and_self, Bool.true_and, decide_eq_false_iff_not] at hreg
-        omega
-      have hd1 := setMaxSize_sizeOK d.dyn e.minSize hs.dsz
-      have s1 : Sim A e { d with dyn := d.dyn.setMaxSize e.minSize, firstField := false } :=
-        sim_dec_setMax hs e.minSize (by omega) hs.minInv false e rfl rfl (by intro h; rw [hu] at h; cases h)
+      have s1 : Sim A e { d with dyn := d.dyn.setMaxSize e.minSize } :=
+        sim_dec_setMax hs e.minSize (by omega) hs.minInv e rfl rfl (by intro h; rw [hu] at h; cases h)
           hs.minInv hs.minReset
       have p1 := parseRepr_sizeUpdate d e.minSize (appendTableSize e.dyn.maxSize ++ rest)
         (by rw [hs.allowed]; omega) (by omega) (Or.inl (hff hu))
-      rw [loopG_step par d _ _ _ none acc p1 (appendTableSize_length _ _)]
-      have p2 := parseRepr_sizeUpdate { d with dyn := d.dyn.setMaxSize e.minSize, firstField := false }
-        e.dyn.maxSize rest (by rw [s1.allowed]; exact hmaxA) (by omega) (Or.inr hz)
-      rw [loopG_step par _ _ _ _ none _ p2 (appendTableSize_length _ _)]
+      rw [loopG_step par d _ _ _ none acc p1 (appendTableSize_length _ _), afterRepr_update]
+      have p2 := parseRepr_sizeUpdate { d with dyn := d.dyn.setMaxSize e.minSize }
+        e.dyn.maxSize rest (by rw [s1.allowed]; exact hmaxA) (by omega) (Or.inl (hff hu))
+      rw [loopG_step par _ _ _ _ none _ p2 (appendTableSize_length _ _), afterRepr_update]
       simp only [optToList, List.append_nil]
       refine ⟨_, rfl, ?_, by simp⟩
-      exact sim_dec_setMax s1 e.dyn.maxSize hmaxA hs.efit false _ rfl rfl (fun _ => Nat.le_refl _)
+      exact sim_dec_setMax s1 e.dyn.maxSize hmaxA hs.efit _ rfl rfl (fun _ => Nat.le_refl _)
         (by show e.dyn.size ≤ uint32Max; exact hsz1) (fun _ => rfl)
     · -- one update
       simp only [hlt, ↓reduceIte, List.nil_append]
       have p1 := parseRepr_sizeUpdate d e.dyn.maxSize rest (by rw [hs.allowed]; exact hmaxA) (by omega)
         (Or.inl (hff hu))
-      rw [loopG_step par d _ _ _ none acc p1 (appendTableSize_length _ _)]
+      rw [loopG_step par d _ _ _ none acc p1 (appendTableSize_length _ _), afterRepr_update]
       simp only [optToList, List.append_nil]
       refine ⟨_, rfl, ?_, by simp⟩
-      exact sim_dec_setMax hs e.dyn.maxSize hmaxA hs.efit false _ rfl rfl (fun _ => Nat.le_refl _)
+      exact sim_dec_setMax hs e.dyn.maxSize hmaxA hs.efit _ rfl rfl (fun _ => Nat.le_refl _)
         (by show e.dyn.size ≤ uint32Max; exact hsz1) (fun _ => rfl)
 
 /-! ### One `WriteField` / `Write` -/
@@ -299,13 +296,12 @@ theorem flush_sim (A : Nat) (e : Encoder) (d : DecCore) (par : Bool) (acc : List
 /-- **One field**: the bytes of `WriteField f`, given to `Decoder.Write`, emit exactly `f`. -/
 theorem writeField_sim (A : Nat) (e : Encoder) (d : Decoder) (f : Field)
     (hs : Sim A e d.toDecCore) (hsave : d.saveBuf = []) (hA : A ≤ uint32Max)
-    (hff : e.tableSizeUpdate = true → d.firstField = true)
-    (hreg : hitsDefect e d.toDecCore = false) (hf : FieldOK f) :
+    (hff : e.tableSizeUpdate = true → d.firstField = true) (hf : FieldOK f) :
     ∃ d', d.write (e.writeField f).2 = (d', [f], none) ∧ Sim A (e.writeField f).1 d'.toDecCore ∧
       (e.writeField f).1.tableSizeUpdate = false ∧ d'.saveBuf = [] := by
   unfold Encoder.writeField
   simp only
-  obtain ⟨d1, hl1, s1, hu1⟩ := flush_sim A e d.toDecCore true [] (e.flushUpdate.1.writeRepr f).2 hs hA hff hreg
+  obtain ⟨d1, hl1, s1, hu1⟩ := flush_sim A e d.toDecCore true [] (e.flushUpdate.1.writeRepr f).2 hs hA hff
   obtain ⟨d2, hp2, hlen2, s2, hu2⟩ := writeRepr_sim A e.flushUpdate.1 d1 f [] s1 hu1 hf hA
   have hne : e.flushUpdate.2 ++ (e.flushUpdate.1.writeRepr f).2 ≠ [] := by
     intro h0
@@ -315,40 +311,33 @@ theorem writeField_sim (A : Nat) (e : Encoder) (d : Decoder) (f : Field)
   rw [write_eq d _ hne, hsave, List.nil_append, hl1]
   rw [List.append_nil] at hp2 hlen2
   rw [loopG_step true d1 d2 _ [] (some f) [] hp2 hlen2, loopG_nil]
-  refine ⟨{ toDecCore := { d2 with firstField := false }, saveBuf := [] }, ?_, s2.setFF false, hu2, rfl⟩
+  refine ⟨{ toDecCore := Hpack.afterRepr (e.flushUpdate.1.writeRepr f).2 d2, saveBuf := [] }, ?_,
+    s2.afterRepr _, hu2, rfl⟩
   simp [finishWrite, optToList]
 
 /-- **One block**: consecutive `WriteField`s fed to consecutive `Write`s. -/
 theorem writeFields_sim (A : Nat) (hA : A ≤ uint32Max) : ∀ (fs : List Field) (e : Encoder) (d : Decoder),
     Sim A e d.toDecCore → d.saveBuf = [] → (e.tableSizeUpdate = true → d.firstField = true) →
-    (fs ≠ [] → hitsDefect e d.toDecCore = false) → (∀ f ∈ fs, FieldOK f) →
+    (∀ f ∈ fs, FieldOK f) →
     ∃ d', runChunks true d (e.writeFields fs).2 = (d', fs, none) ∧ Sim A (e.writeFields fs).1 d'.toDecCore ∧
-      d'.saveBuf = [] ∧ (fs ≠ [] → (e.writeFields fs).1.tableSizeUpdate = false) := by
+      d'.saveBuf = [] := by
   intro fs
   induction fs with
   | nil =>
-    intro e d hs hsave _ _ _
-    exact ⟨d, rfl, hs, hsave, fun h => absurd rfl h⟩
+    intro e d hs hsave _ _
+    exact ⟨d, rfl, hs, hsave⟩
   | cons f fs ih =>
-    intro e d hs hsave hff hreg hok
-    obtain ⟨d1, hw, s1, hu1, hsave1⟩ := writeField_sim A e d f hs hsave hA hff (hreg (by simp))
-      (hok f (by simp))
-    have hreg1 : hitsDefect (e.writeField f).1 d1.toDecCore = false := by
-      unfold hitsDefect; rw [hu1]; rfl
-    obtain ⟨d2, hr, s2, hsave2, hu2⟩ := ih (e.writeField f).1 d1 s1 hsave1
-      (by intro h; rw [hu1] at h; cases h) (fun _ => hreg1) (fun g hg => hok g (by simp [hg]))
-    refine ⟨d2, ?_, s2, hsave2, ?_⟩
-    · simp only [Encoder.writeFields, runChunks]
-      have hw' : d.writeG true (e.writeField f).2 = (d1, [f], none) := hw
-      rw [hw']
-      simp only
-      rw [hr]
-      rfl
-    · intro _
-      simp only [Encoder.writeFields]
-      cases fs with
-      | nil => exact hu1
-      | cons g gs => exact hu2 (by simp)
+    intro e d hs hsave hff hok
+    obtain ⟨d1, hw, s1, hu1, hsave1⟩ := writeField_sim A e d f hs hsave hA hff (hok f (by simp))
+    obtain ⟨d2, hr, s2, hsave2⟩ := ih (e.writeField f).1 d1 s1 hsave1
+      (by intro h; rw [hu1] at h; cases h) (fun g hg => hok g (by simp [hg]))
+    refine ⟨d2, ?_, s2, hsave2⟩
+    simp only [Encoder.writeFields, runChunks]
+    have hw' : d.writeG true (e.writeField f).2 = (d1, [f], none) := hw
+    rw [hw']
+    simp only
+    rw [hr]
+    rfl
 
 /-! ### Table size calls between blocks -/
 
@@ -458,13 +447,6 @@ def Sys.run : Sys → List Block → List (List Field × Option PErr)
   | _, [] => []
   | s, b :: bs => ((s.block b).2.1, (s.block b).2.2) :: Sys.run (s.block b).1 bs
 
-/-- No block of the history starts inside the defect region (computed along the joint run). -/
-def avoidsDefect : Sys → List Block → Bool
-  | _, [] => true
-  | s, b :: bs =>
-    (b.fields.isEmpty || !hitsDefect (b.pre.foldl Encoder.sizeOp s.enc) s.dec.toDecCore) &&
-      avoidsDefect (s.block b).1 bs
-
 /-- Hypotheses of the statement: byte strings of non-overflowing size; the decoder's bound `A`
 covers every limit the encoder is given. -/
 def HistOK (A : Nat) (h : List Block) : Prop :=
@@ -495,12 +477,11 @@ theorem init_between (A : Nat) (hA : initialHeaderTableSize ≤ A) : Between A (
     minReset := by intro _; rfl }
 
 theorem block_sim (A : Nat) (hA : A ≤ uint32Max) (s : Sys) (b : Block) (hb : Between A s)
-    (hf : ∀ f ∈ b.fields, FieldOK f) (hl : ∀ v, SizeOp.setLimit v ∈ b.pre → v ≤ A)
-    (hreg : b.fields ≠ [] → hitsDefect (b.pre.foldl Encoder.sizeOp s.enc) s.dec.toDecCore = false) :
+    (hf : ∀ f ∈ b.fields, FieldOK f) (hl : ∀ v, SizeOp.setLimit v ∈ b.pre → v ≤ A) :
     (s.block b).2 = (b.fields, none) ∧ Between A (s.block b).1 := by
   have s1 := sizeOps_sim b.pre hb.sim hl
-  obtain ⟨d', hr, s2, hsave, _⟩ := writeFields_sim A hA b.fields (b.pre.foldl Encoder.sizeOp s.enc) s.dec s1 hb.save
-    (fun _ => hb.ff) hreg hf
+  obtain ⟨d', hr, s2, hsave⟩ := writeFields_sim A hA b.fields (b.pre.foldl Encoder.sizeOp s.enc) s.dec s1 hb.save
+    (fun _ => hb.ff) hf
   have hrun : runWrites s.dec ((b.pre.foldl Encoder.sizeOp s.enc).writeFields b.fields).2 =
       ({ d' with firstField := true }, b.fields, none) := by
     unfold runWrites runWritesG
@@ -511,47 +492,37 @@ theorem block_sim (A : Nat) (hA : A ≤ uint32Max) (s : Sys) (b : Block) (hb : B
   rw [hrun]
   exact ⟨rfl, s2.setFF true, hsave, rfl⟩
 
-/-- **The property at full strength** (false for the code as it is: `roundtrip_history_full_false`). -/
+/-- **The property at full strength.** -/
 def RoundtripStatement : Prop :=
   ∀ (A : Nat) (h : List Block), initialHeaderTableSize ≤ A → A ≤ uint32Max → HistOK A h →
     Sys.run (Sys.init A) h = h.map (fun b => (b.fields, none))
 
 theorem run_sim (A : Nat) (hA : A ≤ uint32Max) : ∀ (h : List Block) (s : Sys), Between A s → HistOK A h →
-    avoidsDefect s h = true → Sys.run s h = h.map (fun b => (b.fields, none)) := by
+    Sys.run s h = h.map (fun b => (b.fields, none)) := by
   intro h
   induction h with
-  | nil => intro s _ _ _; rfl
+  | nil => intro s _ _; rfl
   | cons b bs ih =>
-    intro s hb hok hreg
-    simp only [avoidsDefect, Bool.and_eq_true, Bool.or_eq_true, List.isEmpty_iff, Bool.not_eq_true'] at hreg
+    intro s hb hok
     have hblk := block_sim A hA s b hb (hok.1 b (by simp)) (hok.2 b (by simp))
-      (by intro hne; rcases hreg.1 with h0 | h0
-          · exact absurd h0 hne
-          · exact h0)
     simp only [Sys.run, List.map_cons]
-    rw [ih (s.block b).1 hblk.2 ⟨fun b' hb' => hok.1 b' (by simp [hb']), fun b' hb' => hok.2 b' (by simp [hb'])⟩ hreg.2]
+    rw [ih (s.block b).1 hblk.2 ⟨fun b' hb' => hok.1 b' (by simp [hb']), fun b' hb' => hok.2 b' (by simp [hb'])⟩]
     rw [show ((s.block b).2.1, (s.block b).2.2) = (s.block b).2 from rfl, hblk.1]
 
-/-- **C01, for the code as it is, outside the defect region**: every history of header blocks with
-arbitrary `SetMaxDynamicTableSize` / `SetMaxDynamicTableSizeLimit` calls between blocks decodes to
-exactly the fields written — same order, names, values and `Sensitive` flags — without error. -/
-theorem roundtrip_history_holds_partial (A : Nat) (h : List Block) (hA0 : initialHeaderTableSize ≤ A)
-    (hA : A ≤ uint32Max) (hok : HistOK A h) (hreg : avoidsDefect (Sys.init A) h = true) :
-    Sys.run (Sys.init A) h = h.map (fun b => (b.fields, none)) :=
-  run_sim A hA h (Sys.init A) (init_between A hA0) hok hreg
+/-- **C01**: every history of header blocks with arbitrary `SetMaxDynamicTableSize` /
+`SetMaxDynamicTableSizeLimit` calls between blocks decodes to exactly the fields written — same
+order, names, values and `Sensitive` flags — without error. -/
+theorem roundtrip_history : RoundtripStatement := fun A h hA0 hA hok =>
+  run_sim A hA h (Sys.init A) (init_between A hA0) hok
 
-/-! ### The statement is false for the code as it is -/
+/-! ### The former counterexample (regression) -/
 
 def witnessField : Field := { name := [97], value := [98] }
 
-/-- Write `a: b`; `SetMaxDynamicTableSize(34)`; `SetMaxDynamicTableSize(4096)`; write `a: b` again. -/
+/-- Write `a: b`; `SetMaxDynamicTableSize(34)`; `SetMaxDynamicTableSize(4096)`; write `a: b` again:
+two table size updates with a non-empty table after the first (rejected before the repair). -/
 def witnessHistory : List Block :=
   [{ fields := [witnessField] }, { pre := [.setMax 34, .setMax 4096], fields := [witnessField] }]
-
-/-- The second block is rejected by the decoder (kernel evaluation of both models). -/
-theorem witness_run :
-    Sys.run (Sys.init 4096) witnessHistory = [([witnessField], none), ([], some .updateNotAtStart)] := by
-  decide +kernel
 
 theorem witness_histOK : HistOK 4096 witnessHistory := by
   constructor
@@ -565,127 +536,17 @@ theorem witness_histOK : HistOK 4096 witnessHistory := by
     simp only [witnessHistory, List.mem_cons, List.not_mem_nil, or_false] at hb
     rcases hb with rfl | rfl <;> simp at hv
 
-theorem witness_in_region : avoidsDefect (Sys.init 4096) witnessHistory = false := by decide +kernel
+/-- Kernel evaluation of both models on the former counterexample: both blocks decode. -/
+theorem witness_run :
+    Sys.run (Sys.init 4096) witnessHistory = [([witnessField], none), ([witnessField], none)] := by
+  decide +kernel
 
-/-- **`RoundtripStatement` does not hold for the code as it is** (finding
-`c01-double-size-update-rejected`). -/
-theorem roundtrip_history_full_false : ¬ RoundtripStatement := by
-  intro h
-  have h1 := h 4096 witnessHistory (by decide) (by decide) witness_histOK
-  rw [witness_run] at h1
-  exact absurd h1 (by decide)
+example : Sys.run (Sys.init 4096) witnessHistory = witnessHistory.map (fun b => (b.fields, none)) :=
+  roundtrip_history 4096 witnessHistory (by decide) (by decide) witness_histOK
 
-/-- **The excluded region is exact**: whenever a block starts inside it, the decoder rejects the
-encoder's bytes of the first field with "dynamic table size update MUST occur at the beginning…"
-and emits nothing. -/
-theorem defect_region_fails (A : Nat) (e : Encoder) (d : Decoder) (f : Field)
-    (hs : Sim A e d.toDecCore) (hsave : d.saveBuf = []) (hA : A ≤ uint32Max) (hff : d.firstField = true)
-    (hreg : hitsDefect e d.toDecCore = true) :
-    ∃ d', d.write (e.writeField f).2 = (d', [], some .updateNotAtStart) := by
-  have hA' : A < 2 ^ 32 := by unfold uint32Max at hA; omega
-  unfold hitsDefect at hreg
-  simp only [Bool.and_eq_true, decide_eq_true_eq] at hreg
-  obtain ⟨⟨hu, hlt⟩, hsz⟩ := hreg
-  have hmaxA : e.dyn.maxSize ≤ A := Nat.le_trans hs.maxle hs.limle
-  have hbytes : (e.writeField f).2 =
-      appendTableSize e.minSize ++ (appendTableSize e.dyn.maxSize ++ (e.flushUpdate.1.writeRepr f).2) := by
-    unfold Encoder.writeField Encoder.flushUpdate
-    simp [hu, hlt]
-  have hne : (e.writeField f).2 ≠ [] := by
-    rw [hbytes]
-    have := appendTableSize_length e.minSize (appendTableSize e.dyn.maxSize ++ (e.flushUpdate.1.writeRepr f).2)
-    intro h0
-    rw [h0] at this
-    simp at this
-  rw [write_eq d _ hne, hsave, List.nil_append, hbytes]
-  have p1 := parseRepr_sizeUpdate d.toDecCore e.minSize
-    (appendTableSize e.dyn.maxSize ++ (e.flushUpdate.1.writeRepr f).2)
-    (by rw [hs.allowed]; omega) (by omega) (Or.inl hff)
-  rw [loopG_step true _ _ _ _ none [] p1 (appendTableSize_length _ _)]
-  have p2 := parseRepr_sizeUpdate_reject
-    { d.toDecCore with dyn := d.dyn.setMaxSize e.minSize, firstField := false } e.dyn.maxSize
-    (e.flushUpdate.1.writeRepr f).2 rfl hsz
-  have hne2 : appendTableSize e.dyn.maxSize ++ (e.flushUpdate.1.writeRepr f).2 ≠ [] := by
-    have := appendTableSize_length e.dyn.maxSize (e.flushUpdate.1.writeRepr f).2
-    intro h0
-    rw [h0] at this
-    simp at this
-  rw [loopG_err true _ _ _ _ _ hne2 p2]
-  exact ⟨_, rfl⟩
-
-/-! ### Corollaries without the region hypothesis -/
-
-theorem flushUpdate_flag (e : Encoder) : e.flushUpdate.1.tableSizeUpdate = false := by
-  unfold Encoder.flushUpdate
-  cases h : e.tableSizeUpdate <;> simp [h]
-
-theorem writeRepr_flag (e : Encoder) (f : Field) : (e.writeRepr f).1.tableSizeUpdate = e.tableSizeUpdate := by
-  unfold Encoder.writeRepr
-  simp only
-  split
-  · rfl
-  · split <;> rfl
-
-theorem writeField_flag (e : Encoder) (f : Field) : (e.writeField f).1.tableSizeUpdate = false := by
-  unfold Encoder.writeField
-  simp only
-  rw [writeRepr_flag, flushUpdate_flag]
-
-theorem writeFields_flag : ∀ (fs : List Field) (e : Encoder), e.tableSizeUpdate = false →
-    (e.writeFields fs).1.tableSizeUpdate = false := by
-  intro fs
-  induction fs with
-  | nil => intro e h; exact h
-  | cons f fs ih => intro e _; exact ih _ (writeField_flag e f)
-
-theorem hitsDefect_of_flag (e : Encoder) (d : DecCore) (h : e.tableSizeUpdate = false) : hitsDefect e d = false := by
-  unfold hitsDefect; rw [h]; rfl
-
-theorem avoidsDefect_no_ops : ∀ (h : List Block) (s : Sys), (∀ b ∈ h, b.pre = []) →
-    s.enc.tableSizeUpdate = false → avoidsDefect s h = true := by
-  intro h
-  induction h with
-  | nil => intro _ _ _; rfl
-  | cons b bs ih =>
-    intro s hno hu
-    have hb : b.pre = [] := hno b (by simp)
-    simp only [avoidsDefect, hb, List.foldl_nil, hitsDefect_of_flag _ _ hu, Bool.not_false, Bool.or_true,
-      Bool.true_and]
-    apply ih _ (fun b' hb' => hno b' (by simp [hb']))
-    show ((b.pre.foldl Encoder.sizeOp s.enc).writeFields b.fields).1.tableSizeUpdate = false
-    rw [hb]
-    exact writeFields_flag _ _ hu
-
-/-- **Round trip at full strength for histories without table size calls** (any number of blocks,
-static/dynamic hits, evictions, sensitive fields). -/
-theorem roundtrip_no_size_change (A : Nat) (h : List Block) (hA0 : initialHeaderTableSize ≤ A)
-    (hA : A ≤ uint32Max) (hok : HistOK A h) (hno : ∀ b ∈ h, b.pre = []) :
-    Sys.run (Sys.init A) h = h.map (fun b => (b.fields, none)) :=
-  roundtrip_history_holds_partial A h hA0 hA hok (avoidsDefect_no_ops h _ hno rfl)
-
-/-- A size call sequence that never raises after lowering cannot produce two updates: if the
-pending minimum is not below the current maximum the block is outside the region. -/
-theorem hitsDefect_of_min_ge (e : Encoder) (d : DecCore) (h : e.dyn.maxSize ≤ e.minSize) : hitsDefect e d = false := by
-  unfold hitsDefect
-  have : decide (e.minSize < e.dyn.maxSize) = false := by simp; omega
-  rw [this]; simp
-
-/-- **Round trip at full strength for one block after arbitrary size calls on a fresh connection**
-(the table is empty, so nothing can be left in it after the first update). -/
-theorem roundtrip_single_block (A : Nat) (b : Block) (hA0 : initialHeaderTableSize ≤ A)
-    (hA : A ≤ uint32Max) (hok : HistOK A [b]) :
-    Sys.run (Sys.init A) [b] = [(b.fields, none)] := by
-  apply roundtrip_history_holds_partial A [b] hA0 hA hok
-  simp only [avoidsDefect, Bool.and_true, Bool.or_eq_true, List.isEmpty_iff, Bool.not_eq_true']
-  right
-  unfold hitsDefect
-  have hz : ((Sys.init A).dec.dyn.setMaxSize (b.pre.foldl Encoder.sizeOp (Sys.init A).enc).minSize).size = 0 := by
-    have h1 := setMaxSize_sizeOK (Sys.init A).dec.dyn (b.pre.foldl Encoder.sizeOp (Sys.init A).enc).minSize
-      (by unfold SizeOK; rfl)
-    have h2 : (Sys.init A).dec.dyn.size = 0 := rfl
-    omega
-  rw [hz]
-  simp
+/-- The second block really carries two table size updates (`3f 03` = 34, `3f e1 1f` = 4096). -/
+example : ((Encoder.new.writeField witnessField).1.setMaxDynamicTableSize 34 |>.setMaxDynamicTableSize 4096
+    |>.writeField witnessField).2 = [63, 3, 63, 225, 31, 190] := by decide +kernel
 
 /-! ### T-tie: the static table's search index (`static_table.go` literal maps) -/
 
@@ -774,15 +635,14 @@ theorem static_index_is_lastIdx (f : Field) :
 
 /-! ### Non-vacuity -/
 
-/-- The hypotheses of the partial theorem are satisfiable by a history with size changes, a
-sensitive field, a static hit and a dynamic hit; its blocks decode to the input. -/
+/-- A history with size changes (encoder-only shrink, lower-then-raise), a sensitive field, a static
+hit and a dynamic hit satisfies the hypotheses; its blocks decode to the input. -/
 def sampleHistory : List Block :=
   [{ fields := [witnessField, { name := [58, 109, 101, 116, 104, 111, 100], value := [71, 69, 84] }] },
    { pre := [.setLimit 100, .setLimit 4096, .setMax 4096],
      fields := [witnessField, { name := [97], value := [99], sensitive := true }] },
-   { pre := [.setMax 0, .setMax 200], fields := [witnessField] }]
+   { pre := [.setMax 40, .setMax 200], fields := [witnessField] }]
 
-example : avoidsDefect (Sys.init 4096) sampleHistory = true := by decide +kernel
 example : Sys.run (Sys.init 4096) sampleHistory = sampleHistory.map (fun b => (b.fields, none)) := by decide +kernel
 example : FieldOK witnessField := by
   refine ⟨?_, ?_, by decide⟩ <;> (intro x hx; simp [witnessField] at hx; omega)
